@@ -108,6 +108,21 @@ pub fn items(quick: bool) -> Vec<Box<dyn Fn() -> Vec<Item> + Send + Sync>> {
             out
         }));
     }
+    let mut generated = gen_ext_tasks(true);
+    generated.extend(gen_spec_tasks(true));
+    for (gi, t) in generated.into_iter().enumerate() {
+        if quick && gi % 3 != 0 {
+            continue;
+        }
+        v.push(Box::new(move || {
+            let mut out = vec![];
+            for f in all_flags() {
+                let problems = build_external(&t, &f, fol::Direction::Universal, true);
+                out.push(Item { desc: json!({"task": t.describe(), "flags": f.name()}), key: format!("{}|{}", t.key(), f.name()), problems, strong: false });
+            }
+            out
+        }));
+    }
     for t in special_ext_tasks() {
         v.push(Box::new(move || {
             let mut out = vec![];
